@@ -1,11 +1,13 @@
 import Driver.Util
 import Driver.C05
 import Driver.C18
+import Driver.C16
 open Driver
 
 def dispatch (op : String) (args : List String) (obs : String) : Option Verdict :=
   (Driver.C05.handle op args obs)
   <|> (Driver.C18.handle op args obs)
+  <|> (Driver.C16.handle op args obs)
 
 def processLine (line : String) : String :=
   let line := line.trimRight
